@@ -22,8 +22,6 @@ def in_fork(fn, *args):
     if pid == 0:
         code = 0
         try:
-            import signal
-            signal.alarm(CHILD_WALL_S)      # wall-clock backstop: a hung child must not hang the worker
             os.close(r)
             try:
                 res = ("ok", fn(*args))
@@ -35,12 +33,23 @@ def in_fork(fn, *args):
             code = 3
         os._exit(code)
     os.close(w)
+    # wall-clock backstop enforced by the parent (timers inside the child are used by the code paths
+    # themselves): a child that has produced nothing after CHILD_WALL_S seconds is killed
+    import select
+    import signal
+    ready, _, _ = select.select([r], [], [], CHILD_WALL_S)
+    if not ready:
+        try:
+            os.kill(pid, signal.SIGKILL)
+        except OSError:
+            pass
+        os.close(r)
+        os.waitpid(pid, 0)
+        raise ForkTimeout(f"forked child did not finish within {CHILD_WALL_S}s")
     with os.fdopen(r, "rb") as f:
         data = f.read()
     _, status = os.waitpid(pid, 0)
     if not data:
-        if os.WIFSIGNALED(status) and os.WTERMSIG(status) == 14:
-            raise ForkTimeout(f"forked child did not finish within {CHILD_WALL_S}s")
         raise ForkError("forked child produced no result")
     res = pickle.loads(data)
     if res[0] == "ok":
